@@ -119,8 +119,10 @@ def _residual_ok(case, k, xr, pair):
     target = k * F(h)
     slope = abs((yb - ya) / (xb - xa))
     dx = 4e-12 + 16 * EPS * max(abs(xa), abs(xb))
+    # (1e-300: in the sub-normal range the interpolant underflows to zero
+    # over a whole stretch and any point of it is a root in floating point)
     tol = slope * dx + 32 * (
-        math.ulp(ya) + math.ulp(yb) + math.ulp(float(target)))
+        math.ulp(ya) + math.ulp(yb) + math.ulp(float(target))) + 1e-300
     return abs(L - target) <= F(tol)
 
 
